@@ -5,7 +5,7 @@
    pipefunc/map/adaptive.py (create_learners, _sequence, _execute_iteration_in_map_spec/_single,
    _identify_cross_product_axes, _iterate_axes) with Pipeline._axis_in_root_arg.
    Builds on Model/MapRun.v (select_kwargs, place, func_shape).  Definitions only. *)
-From Verif Require Import Base.Prelude Base.StrUtil Base.Index Base.NdArr Base.PyRange Base.StrOrd
+From Verif Require Import Base.Prelude Base.StrUtil Base.Index Base.NdArr Base.PyRange Base.StrSeq
   Model.MapSpec Model.MapRun.
 
 (* ------------------------------------------------------------------ fixed_indices *)
